@@ -6,7 +6,7 @@
    reactions to master species (coq/C01/Rewrite.v);  the check_* / *_failures functions are the executable checkers
    that ./check C01 applies (by vm_compute) to what the implementation reports (coq/C01/Checker.v). *)
 From Coq Require Import Reals QArith Qreals Qabs List String PArith FMapPositive Lra.
-From IPV Require Import Base.RExpr Base.IntervalEval C01.Spec C01.Rewrite C01.KCalcProofs C01.Checker C01.CheckerProofs
+From IPV Require Import Base.RExpr Base.IntervalEval C01.Spec C01.Rewrite C01.KCalcProofs C01.EndToEnd C01.Checker C01.CheckerProofs
   Gen.Gen_C01_code.
 Import ListNotations.
 Local Open Scope R_scope.
@@ -109,6 +109,38 @@ Proof.
 Qed.
 Print Assumptions activity_and_si_readout.
 
+(* ---- T-gen, partial correctness of the ionic-strength balance -------------------------------------------------
+   The reported ionic strength MU is an UNKNOWN of the Newton iteration, not a sum.  residuals() computes the row
+   residual  W*mu - f/2  with f = sum z^2 * moles (mb_sums), check_residuals() raises an ERROR when
+   |residual| >= epsilon * mu * W  with epsilon = convergence_tolerance (default 1e-8; 1e-12 with -high_precision).
+   Hence: a calculation that completes WITHOUT that error has |mu - (1/2) sum z^2 m| < 1e-8 mu  (< the property's 1e-7).
+   Partial: termination / convergence of the iteration is not proved; only the ionic-strength row is treated here (the
+   reported element totals, charge balance and alkalinity ARE sums of the species moles: sum_species_is_weighted_sum). *)
+Theorem no_ionic_strength_error_implies_balance_partial :
+  (forall res eps mu W f, 0 < mu -> 0 < W -> 0 <= eps -> eps <= evalR (env_of []) init_convergence_tolerance ->
+     res = evalR (env_of [W; mu; f]) res_mu ->
+     ~ (evalR (env_of [res; eps; mu; W]) cr_mu_lhs >= evalR (env_of [res; eps; mu; W]) cr_mu_rhs) ->
+     Rabs (mu - f / 2 / W) < / 10000000 * mu) /\
+  cr_mu_op = ">=" /\ evalR (env_of []) init_convergence_tolerance = / 100000000 /\
+  cr_epsilon = Var 0 /\ cr_epsilon_vars = ["convergence_tolerance"] /\
+  res_mu_vars = ["mass_water_aq_x"; "mu_x"; "x[i]->f"] /\
+  cr_mu_lhs_vars = ["residual[i]"; "epsilon"; "mu_x"; "mass_water_aq_x"] /\
+  cr_mu_rhs_vars = ["residual[i]"; "epsilon"; "mu_x"; "mass_water_aq_x"].
+Proof.
+  assert (TOL : evalR (env_of []) init_convergence_tolerance = / 100000000)
+    by (unfold init_convergence_tolerance; unfold_evalR; lra).
+  split; [|repeat split; try reflexivity; exact TOL].
+  intros res eps mu W f Hmu HW He0 He Hres Hg. rewrite TOL in He.
+  assert (R1 : res = W * mu - f / 2) by (rewrite Hres; unfold res_mu; unfold_evalR; lra).
+  assert (G : Rabs res < eps * mu * W).
+  { apply Rnot_ge_lt. intros C. apply Hg. unfold cr_mu_lhs, cr_mu_rhs. unfold_evalR. exact C. }
+  assert (E : mu - f / 2 / W = res / W) by (rewrite R1; field; lra).
+  rewrite E. unfold Rdiv. rewrite Rabs_mult, (Rabs_pos_eq (/ W)) by (left; apply Rinv_0_lt_compat; exact HW).
+  apply (Rmult_lt_reg_r W); [exact HW|]. rewrite Rmult_assoc, Rinv_l, Rmult_1_r by lra.
+  pose proof (Rabs_pos res). nra.
+Qed.
+Print Assumptions no_ionic_strength_error_implies_balance_partial.
+
 (* ---- model: rewriting of reactions to master species (any database size, any substitution depth) ----------- *)
 
 Theorem rewrite_preserves_equilibrium : forall is_stop rxn fuel (la K : sid -> R),
@@ -133,6 +165,22 @@ Theorem rewrite_reaches_only_masters : forall is_stop rxn fuel s f, rewrite is_s
   forall x, In x (f_act f) -> is_stop (snd x) = true.
 Proof. exact C01.Rewrite.rewrite_only_masters. Qed.
 Print Assumptions rewrite_reaches_only_masters.
+
+(* ---- composition: the regenerated k_calc and molalities loop on top of the rewriting model -------------------
+   If every species' log activity is  lm + lg  with lm computed by the code's molalities loop from its MASTER-form
+   reaction and the constant k_calc returns for the coefficient-wise sum of the log K vectors (kcomb), then every
+   DATABASE reaction holds with the log K(T) of its own database entry.  Any database, any depth, any T > 0, 1 atm. *)
+Theorem regenerated_code_satisfies_database_mass_action : forall T, 0 < T ->
+  forall is_stop rxn fuel (la lg : sid -> R) (kv : sid -> kvecR),
+  computed_like_molalities (fun k => evalR (kenv k T (ln 10)) kcalc_lk) lm_model is_stop rxn fuel la lg kv ->
+  forall s r f, is_stop s = false -> rxn s = Some r -> rewrite is_stop rxn fuel s = Some f ->
+  la s = logK_T (kv s) T + evalL r la.
+Proof.
+  intros T HT. apply molalities_give_database_mass_action.
+  - intros k. unfold kenv. rewrite kcalc_is_vant_hoff_plus_analytic by exact HT. reflexivity.
+  - exact molalities_satisfy_mass_action.
+Qed.
+Print Assumptions regenerated_code_satisfies_database_mass_action.
 
 (* ---- log K(T) of the database text: selection rule and named expressions ------------------------------------ *)
 
